@@ -28,6 +28,8 @@ type zzConnState struct {
 	ccSet      int
 	closed     bool
 	streamErr  error // error OpenStream returns (nil: ok)
+	gate       chan struct{} // when set, OpenStream waits for a token first (a call in flight)
+	waiting    int
 	streams    int
 }
 
@@ -108,6 +110,11 @@ func zzModelConnConnectionState(c *quic.Conn) quic.ConnectionState { return quic
 //verif:model (*github.com/apernet/quic-go.Conn).OpenStream
 func zzModelConnOpenStream(c *quic.Conn) (*quic.Stream, error) {
 	s := zzConn(c)
+	if s.gate != nil {
+		s.waiting++
+		<-s.gate
+		s.waiting--
+	}
 	if s.closed {
 		return nil, net.ErrClosed
 	}
